@@ -82,6 +82,20 @@ CHECKS: dict[str, dict] = {
         "note": "Same trusted base as C01; created-account addresses compared up to renaming; depth-1024 and gas effects not exercised.",
         "design_ref": "5 C09, 3.3",
     },
+    "C13": {
+        "engine": "E1-reference-machine",
+        "technique": "Cheats.tla relation table of the vm.assert* family + vm.assume executed by TLC inside the TLA+ reference EVM; caller programs for every forge-std signature replayed into halmos",
+        "text": "Cheats.tla states, from StdAssertions.sol, what each vm.assert* signature asserts (signedness by type, element-wise arrays, length-sensitive bytes/strings) and what vm.assume does; the harness keeps its own list of the 76 signatures and computes the selectors with keccak. For each supported signature a caller program (call depth 1-3, operands from calldata) is executed by TLC on Evm.tla in 'stop' and 'continue' mode and by halmos: inputs violating the relation must be covered by a FailCheatcode path and any other covering path must equal the continue behaviour; inputs satisfying it must not be covered by a failure path; inputs violating an assumption must not be covered at all.",
+        "note": "Pointwise on designed boundary points (equal / less / greater / signed-vs-unsigned separating pairs) and small colliding domains, not a universal SMT proof. assertEq/NotEq on string[] and bytes[] raise NotImplementedError in halmos and are skipped (8 signatures). Both Foundry behaviours for a failing assertion are accepted.",
+        "design_ref": "5 C13",
+    },
+    "C14": {
+        "engine": "E1-reference-machine",
+        "technique": "per-frame prank state machine, state cheatcodes and fresh-value oracle specified in Evm.tla/Cheats.tla and executed by TLC; generated cheatcode histories replayed into halmos",
+        "text": "Evm.tla carries a per-frame prank record (single-use / start-stop, optional origin) consumed by CALL/STATICCALL/CREATE/CREATE2 made by that frame only, never by cheatcode calls, nested frames or later messages; deal/store/load/etch/warp/roll/fee/chainId/coinbase/difficulty update the world or the block; the k-th svm.create*/vm.random* call returns the k-th oracle entry shaped by type and width. Prank histories of length 2-6, each state cheatcode followed by reads on the targeted and an untargeted account, and programs with 1-3 fresh values (widths 1..256, byte sizes 0..64, oracle entries random/all-ones/zero, so range, encoding and independence are all visible) are executed by TLC and compared with every covering halmos path.",
+        "note": "Where Foundry's behaviour is version dependent (prank over an active prank, pranked DELEGATECALL/CALLCODE, console) the specification says 'unmodelled' and the case is skipped. Dynamic fresh values are compared up to trailing padding. Balances above 2^128 are outside halmos' documented model.",
+        "design_ref": "5 C14",
+    },
     "C18": {
         "engine": "config-model",
         "technique": "TLC enumerates layer stacks / option-value strings from Config.tla (11 design invariants checked); every enumerated case is replayed into halmos' Config, Parse* actions, TOML parser and annotation plumbing",
